@@ -133,6 +133,10 @@ def vectorised_neighbour_dot(run, pkg, it, fq, fname, NL):
     if len(it.returns) != 1:
         raise AnalysisError(f"{fq}: neighbour dot products not found")
     ret = inline_calls(pkg, it.returns[0].data["value"])
+    # the returned term is the whole computation only if nothing it contains is filled in by stores / loops
+    if it.loops or any(e.data["target"][1] in set(walk(ret)) for e in stores(it)):
+        run.ob("R-ALG", fq, "form", None, "neighbour dot-product form recognised", "per-particle loop whose dot products are not the component-sum form", loc=fi.loc())
+        return
     CN = ("sym", "<cnlist>")
     ret = subst(ret, lambda x: CN if x == NL else None)
     rng = np.random.default_rng(11)
@@ -305,6 +309,10 @@ def check_split(run, pkg):
     loc = loc_of(it, ev)
     L = it.loops[ev.loops[0]]
     n = L.target
+    if ev.data["target"][2] != n:
+        # not the row-by-row (one wave vector per iteration) form the rules below are written for
+        run.ob("R-ALG", fq, "longitudinal", None, "longitudinal part is filled row by row, one wave vector per iteration", f"store target index {show(ev.data['target'][2])[:40]}", loc=loc)
+        return
     okd = eqv(L.iter, ("call", "builtins.range", (("sub", ("attr", ("sym", "qvector"), "shape"), C(0)),), ()))
     run.ob("R-LOOPDOM", fq, "wavevectors", okd, "every wave vector is decomposed", show(L.iter)[:60], witness=None if okd else "wave vectors skipped", loc=fi.loc(L.node), sound=True)
     Lz = ev.data["target"][1]
